@@ -36,17 +36,20 @@ type Solver struct {
 	errors   int
 	dur      time.Duration
 	maxQuery time.Duration
+	fallbacks int
 	logf     *os.File
 }
 
-var solverTimeoutMs = 60000
+var solverTimeoutMs = 1500 // incremental queries; slow ones are re-decided one-shot by a portfolio
+var oneShotTimeoutMs = 12000
+var longTimeoutMs = 60000
 
 func solverArgv(kind string) []string {
 	switch kind {
 	case "z3new":
-		return []string{"z3-new", "-in", fmt.Sprintf("-t:%d", solverTimeoutMs)}
+		return []string{"z3-new", "-in"}
 	case "z3old":
-		return []string{"z3", "-in", fmt.Sprintf("-t:%d", solverTimeoutMs)}
+		return []string{"z3", "-in"}
 	case "cvc5":
 		return []string{"cvc5", "--incremental", "--produce-models", fmt.Sprintf("--tlimit-per=%d", solverTimeoutMs), "--lang=smt2"}
 	case "cvc5int":
@@ -184,9 +187,36 @@ func (s *Solver) Check(pc []*Term, extra *Term, vars []*Term) (string, Model) {
 	if extra != nil {
 		s.pushAssert(extra)
 	}
+	isZ3 := strings.HasPrefix(s.kind, "z3")
+	if isZ3 {
+		s.send(fmt.Sprintf("(set-option :timeout %d)", solverTimeoutMs))
+	}
 	s.send("(check-sat)")
 	s.in.Flush()
 	line := s.readLine()
+	if line != "sat" && line != "unsat" && !strings.HasPrefix(line, "(error") && s.kind == "z3new" {
+		// stage 2: fresh one-shot portfolio (z3 QF_BV tactic, cvc5); stage 3: incremental again, long timeout
+		if r2, m2 := portfolio(pc, extra, vars); r2 == "sat" || r2 == "unsat" {
+			s.fallbacks++
+			if r2 == "sat" {
+				s.sat++
+			} else {
+				s.unsat++
+			}
+			s.popTo(n)
+			d := time.Since(t0)
+			s.dur += d
+			if d > s.maxQuery {
+				s.maxQuery = d
+			}
+			s.queries++
+			return r2, m2
+		}
+		s.send(fmt.Sprintf("(set-option :timeout %d)", longTimeoutMs))
+		s.send("(check-sat)")
+		s.in.Flush()
+		line = s.readLine()
+	}
 	var model Model
 	res := line
 	switch {
@@ -204,10 +234,12 @@ func (s *Solver) Check(pc []*Term, extra *Term, vars []*Term) (string, Model) {
 		res = "unknown"
 		fmt.Fprintln(os.Stderr, "solver error:", line)
 	default:
-		s.unknown++
 		res = "unknown"
 	}
 	s.popTo(n)
+	if res == "unknown" {
+		s.unknown++
+	}
 	d := time.Since(t0)
 	s.dur += d
 	if d > s.maxQuery {
@@ -347,4 +379,120 @@ func oneShot(kind string, script string) string {
 		}
 	}
 	return "unknown"
+}
+
+// portfolio decides pc ∧ extra with fresh one-shot solver processes (z3 5.1.0 with set-logic QF_BV,
+// cvc5), returning the first definitive answer and, for sat, a model over vars.
+func portfolio(pc []*Term, extra *Term, vars []*Term) (string, Model) {
+	base := standaloneScript(pc, extra, false)
+	// standaloneScript ends with (check-sat); add model retrieval
+	var gv strings.Builder
+	if len(vars) > 0 {
+		gv.WriteString("(get-value (")
+		for _, v := range vars {
+			gv.WriteString(v.name + " ")
+		}
+		gv.WriteString("))\n")
+	}
+	// every variable requested must be declared even if it does not occur in the constraints
+	var decl strings.Builder
+	declared := map[string]bool{}
+	for _, l := range strings.Split(base, "\n") {
+		if strings.HasPrefix(l, "(declare-const ") {
+			declared[strings.Fields(l)[1]] = true
+		}
+	}
+	for _, v := range vars {
+		if !declared[v.name] {
+			decl.WriteString(declOf(v) + "\n")
+		}
+	}
+	script := "(set-option :produce-models true)\n(set-logic QF_BV)\n" + decl.String() + base + gv.String()
+	type ans struct {
+		res string
+		out string
+	}
+	ch := make(chan ans, 2)
+	run := func(argv []string) *exec.Cmd {
+		cmd := exec.Command(argv[0], argv[1:]...)
+		cmd.Stdin = strings.NewReader(script)
+		go func() {
+			out, _ := cmd.CombinedOutput()
+			txt := string(out)
+			r := "unknown"
+			for _, l := range strings.Split(txt, "\n") {
+				l = strings.TrimSpace(l)
+				if l == "sat" || l == "unsat" {
+					r = l
+					break
+				}
+				if strings.HasPrefix(l, "(error") {
+					break // an error before the verdict: inconclusive
+				}
+			}
+			if r == "sat" && strings.Contains(txt, "(error") {
+				r = "unknown" // model retrieval failed
+			}
+			ch <- ans{r, txt}
+		}()
+		return cmd
+	}
+	c1 := run([]string{"z3-new", "-in", fmt.Sprintf("-t:%d", oneShotTimeoutMs)})
+	c2 := run([]string{"cvc5", "--lang=smt2", "--produce-models", fmt.Sprintf("--tlimit=%d", oneShotTimeoutMs)})
+	var got ans
+	for i := 0; i < 2; i++ {
+		a := <-ch
+		if a.res == "sat" || a.res == "unsat" {
+			got = a
+			break
+		}
+	}
+	for _, c := range []*exec.Cmd{c1, c2} {
+		if c.Process != nil {
+			c.Process.Kill()
+		}
+	}
+	if got.res == "sat" {
+		return "sat", parseValues(got.out)
+	}
+	if got.res == "unsat" {
+		return "unsat", nil
+	}
+	if p := os.Getenv("GOSYM_DUMPHARD"); p != "" {
+		os.WriteFile(fmt.Sprintf("%s.%d.smt2", p, time.Now().UnixNano()), []byte(script), 0644)
+	}
+	return "unknown", nil
+}
+
+func parseValues(txt string) Model {
+	m := Model{}
+	txt = strings.NewReplacer("(", " ( ", ")", " ) ").Replace(txt)
+	toks := strings.Fields(txt)
+	for i := 0; i+2 < len(toks); i++ {
+		if toks[i] != "(" {
+			continue
+		}
+		v, ok := varByName[toks[i+1]]
+		if !ok {
+			continue
+		}
+		val := toks[i+2]
+		var x uint64
+		switch {
+		case strings.HasPrefix(val, "#x"):
+			x, _ = strconv.ParseUint(val[2:], 16, 64)
+		case strings.HasPrefix(val, "#b"):
+			x, _ = strconv.ParseUint(val[2:], 2, 64)
+		case val == "true":
+			x = 1
+		case val == "false":
+			x = 0
+		case val == "(" && i+4 < len(toks) && toks[i+3] == "_" && strings.HasPrefix(toks[i+4], "bv"):
+			x, _ = strconv.ParseUint(toks[i+4][2:], 10, 64)
+		default:
+			continue
+		}
+		m[v] = x
+	}
+	return m
 }
